@@ -671,7 +671,23 @@ func ruleR202(c *Ctx) {
 		}
 	}
 
-	// (d) constructors: axis.bins == len of the matching slice dimension; rows allocated independently
+	// (d) constructors: axis.bins == len of the matching slice dimension; rows allocated independently.
+	// Shape independent: every literal of the axis type is attributed to (container, dimension) through the place it is
+	// written to - an element of the container's literal (positional or keyed), or an assignment b.x = axis{...} to a
+	// field of a container the function has just created - and its count is compared with the length of the matching
+	// dimension of the slice the container is created with.
+	fieldExpr := func(cl *ast.CompositeLit, st *types.Struct, name string) ast.Expr {
+		for i, e := range cl.Elts {
+			if kv, ok := e.(*ast.KeyValueExpr); ok {
+				if kid, ok := kv.Key.(*ast.Ident); ok && kid.Name == name {
+					return kv.Value
+				}
+			} else if i < st.NumFields() && st.Field(i).Name() == name {
+				return e
+			}
+		}
+		return nil
+	}
 	for _, f := range vp.Syntax {
 		if !strings.HasSuffix(c.Fset.Position(f.Pos()).Filename, "binning.go") {
 			continue
@@ -689,32 +705,91 @@ func ruleR202(c *Ctx) {
 			if !isBin {
 				return true
 			}
-			fd := c.EnclosingDecl(cl)
-			key := declName(vp, fd) + "#axis-size=len(bins)"
-			if len(cl.Elts) != len(lay.axes)+1 {
-				c.Undecided(key, cl.Pos(), "literal shape not recognised")
+			cst, ok := n.Underlying().(*types.Struct)
+			if !ok {
 				return true
 			}
-			binsExpr := cl.Elts[len(cl.Elts)-1]
-			if kv, ok := binsExpr.(*ast.KeyValueExpr); ok {
-				_ = kv
-				c.Undecided(key, cl.Pos(), "keyed literal not supported")
+			fd := c.EnclosingDecl(cl)
+			key := declName(vp, fd) + "#axis-size=len(bins)"
+			// the slice field: the one field of the container that is no axis
+			binsField := ""
+			for i := 0; i < cst.NumFields(); i++ {
+				isAxis := false
+				for _, an := range lay.axes {
+					if cst.Field(i).Name() == an {
+						isAxis = true
+					}
+				}
+				if _, isSlice := cst.Field(i).Type().Underlying().(*types.Slice); isSlice && !isAxis {
+					binsField = cst.Field(i).Name()
+				}
+			}
+			binsExpr := fieldExpr(cl, cst, binsField)
+			if binsField == "" || binsExpr == nil {
+				c.Undecided(key, cl.Pos(), "the slice the container is created with was not found in its literal")
 				return true
 			}
 			binsName := nodeStr(c.Fset, binsExpr)
-			for k := range lay.axes {
-				ax, ok := ast.Unparen(cl.Elts[k]).(*ast.CompositeLit)
-				if !ok || len(ax.Elts) != 3 {
-					c.Undecided(key, cl.Pos(), "axis literal not recognised")
+			// the variable that holds the new container (b := &Binning2dData{...}), for axes assigned afterwards
+			var holder types.Object
+			if as, ok := c.Parent(c.Parent(cl)).(*ast.AssignStmt); ok {
+				if len(as.Lhs) == 1 {
+					if id, ok := as.Lhs[0].(*ast.Ident); ok {
+						holder = info.ObjectOf(id)
+					}
+				}
+			} else if as, ok := c.Parent(cl).(*ast.AssignStmt); ok && len(as.Lhs) == 1 {
+				if id, ok := as.Lhs[0].(*ast.Ident); ok {
+					holder = info.ObjectOf(id)
+				}
+			}
+			for k, axName := range lay.axes {
+				var axLit *ast.CompositeLit
+				if e := fieldExpr(cl, cst, axName); e != nil {
+					axLit, _ = ast.Unparen(e).(*ast.CompositeLit)
+				} else if holder != nil && fd != nil {
+					ast.Inspect(fd.Body, func(y ast.Node) bool {
+						as, ok := y.(*ast.AssignStmt)
+						if !ok || len(as.Lhs) != 1 || len(as.Rhs) != 1 {
+							return true
+						}
+						sel, ok := ast.Unparen(as.Lhs[0]).(*ast.SelectorExpr)
+						if !ok || sel.Sel.Name != axName {
+							return true
+						}
+						if id, ok := ast.Unparen(sel.X).(*ast.Ident); ok && info.ObjectOf(id) == holder {
+							axLit, _ = ast.Unparen(as.Rhs[0]).(*ast.CompositeLit)
+						}
+						return true
+					})
+				}
+				if axLit == nil {
+					c.Undecided(fmt.Sprintf("%s[%d]", key, k), cl.Pos(), "the literal of axis %s was not found", axName)
+					continue
+				}
+				ast2, ok := info.TypeOf(axLit).Underlying().(*types.Struct)
+				if !ok {
+					c.Undecided(fmt.Sprintf("%s[%d]", key, k), axLit.Pos(), "axis literal not recognised")
+					continue
+				}
+				// the count: the one integer field of the axis
+				var got ast.Expr
+				for i := 0; i < ast2.NumFields(); i++ {
+					if b, ok := ast2.Field(i).Type().Underlying().(*types.Basic); ok && b.Info()&types.IsInteger != 0 {
+						got = fieldExpr(axLit, ast2, ast2.Field(i).Name())
+					}
+				}
+				if got == nil {
+					c.Undecided(fmt.Sprintf("%s[%d]", key, k), axLit.Pos(), "the bin count of the axis literal was not found")
 					continue
 				}
 				want := "len(" + binsName + ")"
 				if k == 1 {
 					want = "len(" + binsName + "[0])"
 				}
-				got := nodeStr(c.Fset, ax.Elts[2])
-				c.Check(got == want, fmt.Sprintf("%s[%d]", key, k), ax.Pos(), "axis "+lay.axes[k]+" has exactly "+want+" bins: getIndex results are in range of the slice",
-					"axis "+lay.axes[k]+" is created with "+got+" bins, the slice dimension has "+want+": getIndex results and slice bounds disagree")
+				gs := nodeStr(c.Fset, got)
+				c.Check(gs == want, fmt.Sprintf("%s[%d]", key, k), axLit.Pos(), "axis "+axName+" has exactly "+want+" bins: getIndex results are in range of the slice",
+					"axis "+axName+" is created with "+gs+" bins, the slice dimension has "+want+": getIndex results and slice bounds disagree")
 			}
 			return true
 		})
